@@ -57,6 +57,11 @@ def run(check, prog):
     c01.f6_copy_metadata(check, prog)
     # a result on explicit points says where each value is (shared with C01)
     c01.f9_point_coordinates(check, prog)
+    # the value at a point does not depend on which point was computed before it:
+    # a failed Bessel evaluation is not read back as the previous point's values
+    # (rule on the Fortran sources, shared with C02)
+    from . import c02 as _c02f
+    _c02f.status_examined(check, prog)
     constructors(check, prog)
     # a pixel's value must not depend on which other pixels are computed in the
     # same call: the interpolation windows of the radial integrals sit on a fixed
